@@ -7,7 +7,7 @@ import ast
 from .common import *
 from ..dsl import Ctx as Dsl
 from .c01 import (operand_kinds, make, kind_str, is_fixed_kind,
-                  is_signed_kind, term_with_neg)
+                  is_signed_kind, term_with_neg, r4_formats)
 
 EXPLANATION = (
     "Decided: (R02.1) a scale-dimension check of the operator algebra. The "
@@ -24,7 +24,9 @@ EXPLANATION = (
     "int(): five-digit decimals times 100000 are frequently just below the "
     "integer (0.29 -> 28999.999999999996); the conversion is additionally "
     "tabulated on such decimals. (R02.3) the Python-side read divides the "
-    "raw 8-byte value by FIXED_BASE for format x only. Declined: exact "
+    "raw 8-byte value by FIXED_BASE for format x only. (R01.4, shared with "
+    "C01) format x counts as 8 bytes / 64 bit in every size table and width "
+    "predicate. Declined: exact "
     "rational results of whole expression trees and the range "
     "precondition.")
 ASSUMPTIONS = [
@@ -50,6 +52,10 @@ def run(chk, repo):
     stores(chk, repo, d)
     rounding(chk, repo, d)
     reads(chk, repo, d)
+    # a fixed-point value is a 64-bit quantity on every route (shared with
+    # C01): format x is 8 bytes for the size tables, for the width a load
+    # reports and for the width a store computes in
+    r4_formats(chk, repo, d)
 
 
 def pairs_for(d):
@@ -214,6 +220,52 @@ def stores(chk, repo, d):
                              f"{tree}*B^{k}")
     chk.ob("R02.1", E + "RegisterArray.__setitem__", "value is scaled to the "
            "register view", not fails, ifs[0], "; ".join(fails) or "4 rows")
+    # Python numbers stored directly: the constant that reaches the store is
+    # the number itself at the destination's scale - a decimal constant
+    # assigned to an integer destination is *dropped* to an integer by the
+    # generated division like any run-time value, never rounded up while
+    # the code is generated
+    consts = (3.7, 0.6, -3.7, 2.5, 0.29, 7, -7, 12345.67891, 41.5)
+    for sym, func, mk_self, dests in (
+            (E + "Memory._set", st, lambda f: Obj(mc, {"fmt": f,
+                                                      "ebpf": d.ebpf}),
+             (("x", 1), ("q", 0), ("I", 0), ("i", 0))),
+            (E + "RegisterArray.__setitem__", si,
+             lambda f: Obj(ra, {"fixed": f, "ebpf": d.ebpf, "long": True,
+                                "signed": True}),
+             ((True, 1), (False, 0)))):
+        scale = [s for s in walk_no_nested(func) if isinstance(s, ast.If)
+                 and "fixed" in unparse(s.test) and "FIXED_BASE" in unparse(s)]
+        scale = [s for s in scale if not any(s in o.orelse for o in scale)][0]
+        holder = scale._parent
+        lst = next(getattr(holder, fld) for fld in ("body", "orelse",
+                                                    "finalbody")
+                   if scale in getattr(holder, fld, []))
+        prelude = [s for s in lst[:lst.index(scale)]
+                   if isinstance(s, (ast.Assign, ast.If))
+                   and "value" in unparse(s)]
+        fails = []
+        rows = 0
+        for dest, want in dests:
+            for c in consts:
+                rows += 1
+                env = {"self": mk_self(dest), "value": c, "no": 3}
+                try:
+                    ev.run_block(prelude + [scale], env)
+                    tree, k, probs = d.term(env["value"], {"c"}, {"c": c})
+                except (Raised, Unknown, AnalysisError) as e:
+                    fails.append(f"{dest!r} = {c}: {e}")
+                    continue
+                if tree != "c" or k != want or probs:
+                    fails.append(f"{dest!r} = {c}: the stored raw value is "
+                                 f"{d.show((tree, k))}"
+                                 f"{' (' + probs[0] + ')' if probs else ''}, "
+                                 f"expected c*B^{want}")
+        chk.ob("R02.1", sym, f"a Python number is stored at the "
+               f"destination's scale ({rows} rows)", not fails, scale,
+               "; ".join(fails[:3]) or "decimal constants reach integer "
+               "destinations through the same truncating division as "
+               "run-time values")
     # the x view is the fixed one
     init = repo.func(E + "EBPF.__init__")
     vals = [v for s, v in assigned_values(init, "self.x")]
@@ -249,11 +301,55 @@ def rounding(chk, repo, d):
             par = p._parent
             ok = isinstance(par, ast.Call) and dotted(par.func) == "round" \
                 and par.args and par.args[0] is p
-            chk.ob("R02.2", sym, f"`{unparse(p)}` is rounded", ok, p,
-                   f"the scaled value is `{unparse(par)[:60]}`: int() "
-                   f"truncates, and a decimal times 100000 is often just "
-                   f"below the integer (0.29 -> 28999.999999999996)"
-                   if not ok else "round() to the nearest integer")
+            why = "round() to the nearest integer"
+            if not ok:
+                # another spelling: decide it by folding the whole
+                # conversion on decimals that are inexact in binary
+                top = p
+                while True:
+                    q = top._parent
+                    if isinstance(q, (ast.BinOp, ast.UnaryOp)) or (
+                            isinstance(q, ast.Call) and q.args
+                            and q.args[0] is top and (dotted(q.func) or ""
+                                                      ).split(".")[-1] in (
+                                "int", "round", "floor", "ceil", "trunc",
+                                "float")):
+                        top = q
+                    else:
+                        break
+                mod = f._module
+                free = sorted(n for n in {x.id for x in ast.walk(top)
+                                          if isinstance(x, ast.Name)}
+                              if n != "self" and n not in mod.symbols
+                              and n not in mod.imports
+                              and n not in ("int", "round", "float"))
+                bad = []
+                ci = repo.enclosing_class(f)
+                for v in DECIMALS + [-1e-05, -0.57, 1e-05, 123456.78901]:
+                    env = {nm: v for nm in free}
+                    env["self"] = Obj(ci, {})
+                    try:
+                        got = Evaluator(repo, f._module).eval(top, env)
+                    except (Raised, Unknown):
+                        bad = None
+                        break
+                    if got != round(v * d.base) or isinstance(got, float) \
+                            and top is not p and not float(got).is_integer():
+                        bad.append(f"{v} -> {got}")
+                if bad is None:
+                    why = (f"the scaled value is `{unparse(par)[:60]}`: "
+                           f"int() truncates, and a decimal times 100000 is "
+                           f"often just below the integer (0.29 -> "
+                           f"28999.999999999996)")
+                elif bad:
+                    why = (f"`{unparse(top)[:60]}` is not the nearest "
+                           f"integer: " + ", ".join(bad[:4]))
+                else:
+                    ok = True
+                    why = (f"`{unparse(top)[:60]}` gives the nearest integer "
+                           f"on {len(DECIMALS) + 4} inexact decimals of both "
+                           f"signs")
+            chk.ob("R02.2", sym, f"`{unparse(p)}` is rounded", ok, p, why)
     chk.floor("R02.2", "float -> scaled integer conversions", n, 3)
     # tabulate Constant on decimals that are not exact in binary
     cc = repo.cls(E + "Constant")
